@@ -991,7 +991,7 @@ PROPS = {
         explanation="theorems idle_not_early, idle_bound_2T, progress_at_deadline_keeps_open, wf_step about the Timer model of "
                     "TT/Model/Pipe.lean; establishment_timeout_reported, establishment_in_time_connected, "
                     "establishment_timeout_destination_independent about TT.Dispatch.handle (the request path model of C10); "
-                    "closest_not_after_any_deadline, tick_recomputes, tick_handles_expired, wake_up_makes_progress about TT/Model/QuicTimers.lean",
+                    "closest_not_after_any_deadline, tick_recomputes, tick_handles_expired, wake_up_makes_progress, one_deadline_per_connection, arm_replaces, removed_has_no_deadline, tick_without_rearm_drops_expired about TT/Model/QuicTimers.lean",
         trusted=["tokio's timer wheel under the paused clock (ms granularity); with a real clock timers fire late by the scheduling latency, "
                  "which the model's exact clock does not include",
                  "the TLS-handshake timeout is a tokio::time::timeout wrapper around TlsListener::listen and the acceptor: it is not "
